@@ -115,7 +115,7 @@ def gen_sets(ctx):
         return [('all<=5', progs.generate(ctx, 'all', 5)),
                 ('expr<=6', progs.generate(ctx, 'expr', 6)),
                 ('blocks<=9', progs.generate(ctx, 'blocks', 9)),
-                ('shortif<=13', progs.generate(ctx, 'shortif', 13)),
+                ('shortif<=15', progs.generate(ctx, 'shortif', 15)),
                 ('sim<=40', progs.generate(ctx, 'all', 40, max_depth=4, simulate=300))]
     return [('all<=6', progs.generate(ctx, 'all', 6)),
             ('expr<=8', progs.generate(ctx, 'expr', 8)),
